@@ -153,6 +153,9 @@ def run(chk):
             except ValueError:
                 pass
     pre_env["supported_types"] = list(sup)
+    from ..pkgenv import bind_module_constants
+
+    bind_module_constants(repo.tree[FILE], pre_env)
 
     ints = [n.value for n in ast.walk(node_loop) if isinstance(n, ast.Constant) and isinstance(n.value, int) and not isinstance(n.value, bool)]
     K = max([2] + ints) + 1
@@ -292,68 +295,156 @@ def run(chk):
     chk.extra["abstract_states_node_loop"] = n_states * 2
     chk.floor("abstract states tabulated for the per-node loop", n_states, 1000)
 
-    # ---- P: pin predicate ---------------------------------------------
-    name_t, bb_t = [e.id for e in bb_loop.target.elts]
-    pin_loops = []
-    for st in bb_loop.body:
-        if isinstance(st, ast.For) and isinstance(st.target, ast.Name):
-            d = dotted(st.iter)
-            if d == f"{bb_t}.inputs()":
-                pin_loops.append(("input", st))
-            elif d == f"{bb_t}.outputs()":
-                pin_loops.append(("output", st))
-            elif d == f"{bb_t}.io()":
-                pin_loops.append(("io", st))
-    kinds = {k for k, _ in pin_loops}
-    if not ({"input", "output"} <= kinds):
-        raise AnalysisError("lint(): loops over bb.inputs() and bb.outputs() not found in the blackbox section", FILE, bb_loop.lineno)
-    n_pin = 0
-    for kind, loop in pin_loops:
-        if kind == "io":
-            raise AnalysisError("lint(): pin loop over bb.io() is an unrecognised idiom", FILE, loop.lineno)
-        want_type = "bb_input" if kind == "input" else "bb_output"
-        pv = loop.target.id
-        for present, ptype in [(False, None), (True, "bb_input"), (True, "bb_output"), (True, "buf"), (True, "input")]:
-            for fail_fast in (True, False):
-                n_pin += 1
-                attrs = {}
+    # ---- P: pin predicate (whole function evaluated on registry models) -----
+    # Robust to any restructuring of the blackbox section: lint's body is evaluated on model circuits whose
+    # only possible defect is a missing / mistyped pin; it must raise ValueError exactly for those.
+    params = func_params(fn)
+
+    def run_lint(c, fail_fast):
+        env = dict(pre_env)
+        env.update({cname: c, "fail_fast": fail_fast, "unloaded": False, "undriven": False, "single_input_gates": False})
+        bi = BlockInterp(env, max_steps=100000)
+        try:
+            r = bi.run(body)
+        except ModelRaise as e:
+            return ("raise", e.kind)
+        except Unsupported as e:
+            raise AnalysisError(f"lint(): unrecognised idiom: {e}", FILE, fn.lineno)
+        return r if isinstance(r, tuple) else ("return", None)
+
+    def registry_model(defs):
+        """defs: {inst: (bbname, {pin: ('in'|'out', present, type)})}"""
+        attrs = {"a": {"type": "input", "output": False}, "o": {"type": "buf", "output": True}}
+        edges = [("a", "o")]
+        bbs = {}
+        for inst, (bbname, pins) in defs.items():
+            bbs[inst] = MBlackBox(bbname, [p for p, (d, _, _) in pins.items() if d == "in"], [p for p, (d, _, _) in pins.items() if d == "out"])
+            for pin, (d, present, t) in pins.items():
                 if present:
-                    attrs["u0.p"] = {"type": ptype, "output": False}
-                bb = MBlackBox("bb", ["p"] if kind == "input" else [], ["p"] if kind == "output" else [])
-                c = MCircuit(attrs, [], {"u0": bb})
-                events = []
+                    attrs[f"{inst}.{pin}"] = {"type": t, "output": False}
+        return MCircuit(attrs, edges, bbs)
 
-                def on_call(call, interp, events=events):
-                    if isinstance(call.func, ast.Name) and call.func.id == hname:
-                        events.append("handle")
-                        if fail_fast:
-                            raise _Stop()
-                        return True
-                    return False
-
-                env = dict(pre_env)
-                env.update({cname: c, name_t: "u0", bb_t: bb, pv: "p", "fail_fast": fail_fast})
-                bi = BlockInterp(env, on_call=on_call)
-                escaped = None
-                try:
-                    bi.run(loop.body)
-                except _Stop:
-                    pass
-                except ModelRaise as e:
-                    escaped = e.kind
-                except Unsupported as e:
-                    raise AnalysisError(f"lint(): unrecognised idiom in a blackbox-pin guard: {e}", FILE, loop.lineno)
-                got = "handle" in events
-                want = (not present) or ptype != want_type
-                state = {"pin_kind": kind, "present": present, "pin_type": ptype, "fail_fast": fail_fast}
-                key = f"pin:{kind}:{'missing' if not present else ptype}"
-                if escaped and not (fail_fast and got):
-                    chk.ob("C20.P.only-ValueError-escapes", key, False, file=FILE, func="lint", line=loop.lineno, fact={"state": state, "escapes": escaped})
-                else:
-                    chk.ob("C20.P.pin-predicate", key + (":ff" if fail_fast else ":acc"), got == want, file=FILE, func="lint", line=loop.lineno,
-                           fact={"state": state, "reported": got}, expect={"reported": want})
+    n_pin = 0
+    cases = []
+    for d, good, bads in (("in", "bb_input", ["bb_output", "buf", "input"]), ("out", "bb_output", ["bb_input", "buf", "input"])):
+        cases.append((f"pin:{d}:ok", {"u0": ("ff", {"p": (d, True, good)})}, False))
+        cases.append((f"pin:{d}:missing", {"u0": ("ff", {"p": (d, False, None)})}, True))
+        for t in bads:
+            cases.append((f"pin:{d}:typed-{t}", {"u0": ("ff", {"p": (d, True, t)})}, True))
+    ok2 = {"p": ("in", True, "bb_input"), "q": ("out", True, "bb_output")}
+    cases.append(("two-instances:ok", {"u0": ("ff", dict(ok2)), "u1": ("ff", dict(ok2))}, False))
+    cases.append(("two-instances:second-missing-pin", {"u0": ("ff", dict(ok2)), "u1": ("ff", {"p": ("in", True, "bb_input"), "q": ("out", False, None)})}, True))
+    # two different definitions that share a name (generic_flop 'ff' next to the library's 'ff' with other pins)
+    other = {"ck": ("in", True, "bb_input"), "d": ("in", True, "bb_input"), "z": ("out", True, "bb_output")}
+    cases.append(("same-name-different-definitions:ok", {"u0": ("ff", dict(ok2)), "u1": ("ff", dict(other))}, False))
+    cases.append(("same-name-different-definitions:ok-reversed", {"u1": ("ff", dict(other)), "u0": ("ff", dict(ok2))}, False))
+    bad_other = dict(other)
+    bad_other["z"] = ("out", True, "buf")
+    cases.append(("same-name-different-definitions:second-mistyped", {"u0": ("ff", dict(ok2)), "u1": ("ff", bad_other)}, True))
+    bad_other2 = dict(other)
+    bad_other2["ck"] = ("in", False, None)
+    cases.append(("same-name-different-definitions:first-missing", {"u1": ("ff", bad_other2), "u0": ("ff", dict(ok2))}, True))
+    cases.append(("unnamed-blackboxes", {"u0": (None, dict(ok2)), "u1": (None, dict(other))}, False))
+    for key, defs, want in cases:
+        for fail_fast in (True, False):
+            n_pin += 1
+            r = run_lint(registry_model(defs), fail_fast)
+            got = r[0] == "raise" and r[1] == "ValueError"
+            escaped = r[0] == "raise" and r[1] != "ValueError"
+            if escaped:
+                chk.ob("C20.P.only-ValueError-escapes", key, False, file=FILE, func="lint", line=bb_loop.lineno, fact={"escapes": r[1], "fail_fast": fail_fast})
+            else:
+                chk.ob("C20.P.pin-predicate", key + (":ff" if fail_fast else ":acc"), got == want, file=FILE, func="lint", line=bb_loop.lineno,
+                       fact={"registry": {i: [n, sorted(p)] for i, (n, p) in defs.items()}, "reported": got, "result": str(r)[:80]}, expect={"reported": want})
     chk.floor("pin states tabulated", n_pin, 20)
+    library_outputs_rule(chk)
 
 
 class _Stop(Exception):
     pass
+
+
+def library_outputs_rule(chk):
+    """C20 second sentence, on model families: what the parsers, generators, fully connected composition calls
+    and function-preserving transforms produce from lint-clean arguments is itself lint-clean (lint evaluated
+    from source on the reference-model result)."""
+    from ..pkgenv import Package
+    from ..refmodel import RefBlackBox, RefCircuit, build
+    from ..semantic import deep_circuits, one_gate_circuits
+    from ..verilogmodel import ParseError, full_parse
+
+    repo = chk.repo
+    P = Package(repo)
+    n = 0
+
+    def lint_clean(c):
+        r = P.call(FILE, "lint", c)
+        return None if r[0] == "return" else {"lint": str(r)[:200]}
+
+    def ob(key, c, func):
+        nonlocal n
+        n += 1
+        prob = {"problem": "producer did not return a circuit", "result": str(c)[:120]} if not isinstance(c, RefCircuit) else lint_clean(c)
+        chk.ob("C20.L.library-output-lint-clean", key, prob is None, file=FILE, func=func, fact=prob or {"nodes": len(c.nodes())}, expect="lint(c) does not raise")
+
+    def val(r):
+        return r[1] if r[0] == "return" else r
+
+    # generators
+    ob("logic.half_adder", val(P.call("logic.py", "half_adder")), "logic.half_adder")
+    ob("logic.full_adder", val(P.call("logic.py", "full_adder")), "logic.full_adder")
+    for w in (1, 2, 3):
+        for ci, co in ((False, False), (True, True)):
+            ob(f"logic.adder({w},{ci},{co})", val(P.call("logic.py", "adder", w, ci, co)), "logic.adder")
+    for w in (2, 3, 4, 5):
+        ob(f"logic.mux({w})", val(P.call("logic.py", "mux", w)), "logic.mux")
+    for w in (1, 2, 3, 4, 5):
+        ob(f"logic.popcount({w})", val(P.call("logic.py", "popcount", w)), "logic.popcount")
+    # parsers
+    ff = RefBlackBox("dff", ["clk", "d"], ["q", "qn"])
+    texts = {
+        "gates+assign": ("module m (a, b, o, p);\n  input a, b;\n  output o, p;\n  wire w;\n  and g0 (w, a, b);\n  assign o = w;\n  assign p = 1'b1;\nendmodule\n", []),
+        "blackbox": ("module s (ck, a, y);\n  input ck, a;\n  output y;\n  wire d0, q0;\n  xor x0 (d0, a, q0);\n  dff r0 (.clk(ck), .d(d0), .q(q0), .qn());\n  buf b0 (y, q0);\nendmodule\n", [ff]),
+        "constant-only-in-assign": ("module k (a, y, z);\n  input a;\n  output y, z;\n  assign y = 1'b0;\n  buf b0 (z, a);\nendmodule\n", []),
+        "constants-in-ports-and-assign": ("module k (a, y, z);\n  input a;\n  output y, z;\n  assign y = 1'b1;\n  and a0 (z, a, 1'b1);\nendmodule\n", []),
+    }
+    for name, (text, bbs) in texts.items():
+        try:
+            ob(f"full parser::{name}", full_parse(P, text, bbs), "parse_verilog_netlist")
+        except ParseError as e:
+            ob(f"full parser::{name}", str(e), "parse_verilog_netlist")
+        ob(f"fast parser::{name}", val(P.call("parsing/fast_verilog.py", "fast_parse_verilog_netlist", text, bbs)), "fast_parse_verilog_netlist")
+    ob("bench reader", val(P.call("io.py", "bench_to_circuit", "INPUT(a)\nINPUT(b)\nOUTPUT(o)\nq = DFF(d)\nd = XOR(a, q)\no = NAND(q, b)\n", "b")), "bench_to_circuit")
+    # transforms on lint-clean arguments
+    models = [(k, c) for k, c in deep_circuits()] + list(one_gate_circuits(max_arity=3, types=["nand", "xnor", "not"]))
+    for k, c in models:
+        if lint_clean(c) is not None:
+            continue
+        ob(f"limit_fanin({k},2)", val(P.call("tx.py", "limit_fanin", c, 2)), "limit_fanin")
+        ob(f"limit_fanout({k},2)", val(P.call("tx.py", "limit_fanout", c, 2)), "limit_fanout")
+        r = P.call("tx.py", "ternary", c)
+        ob(f"ternary({k})", r[1][0] if r[0] == "return" else r, "ternary")
+        ob(f"miter({k},{k})", val(P.call("tx.py", "miter", c, c.copy())), "miter")
+        ob(f"acyclic_unroll({k})", val(P.call("tx.py", "acyclic_unroll", c)), "acyclic_unroll")
+        ob(f"relabel({k})", val(P.call("tx.py", "relabel", c, {x: f"r_{x}" for x in c.nodes()})), "relabel")
+        r = P.call("tx.py", "insert_registers", c, 1)
+        if r[0] == "return":
+            ob(f"insert_registers({k},1)", r[1], "insert_registers")
+        gate = sorted(x for x in c.nodes() if c.type(x) not in ("input", "0", "1"))[0]
+        ob(f"sensitivity_transform({k},{gate})", val(P.call("tx.py", "sensitivity_transform", c, gate)), "sensitivity_transform")
+        ob(f"sensitization_transform({k},{gate})", val(P.call("tx.py", "sensitization_transform", c, gate)), "sensitization_transform")
+    sm = build({"x": ("input", []), "s": ("input", []), "ns": ("xor", ["x", "s"]), "y": ("and", ["x", "s"])}, outputs=["ns", "y"])
+    r = P.call("tx.py", "unroll", sm, 3, {"ns": "s"})
+    ob("unroll(toggle,3)", r[1][0] if r[0] == "return" else r, "unroll")
+    # fully connected composition
+    child = build({"x": ("input", []), "y": ("input", []), "c": ("and", ["x", "y"]), "s": ("xor", ["x", "y"])}, outputs=["c", "s"])
+    par = build({"A": ("input", []), "B": ("input", []), "T1": ("buf", []), "T2": ("buf", []), "O": ("or", ["T1", "T2"])}, outputs=["O"])
+    P.call_method("circuit.py", "Circuit.add_subcircuit", par, child, "u0", {"x": "A", "y": "B", "c": "T1", "s": "T2"})
+    ob("add_subcircuit fully connected", par, "Circuit.add_subcircuit")
+    par2 = build({"A": ("input", []), "B": ("input", []), "T1": ("buf", []), "T2": ("buf", []), "O": ("or", ["T1", "T2"])}, outputs=["O"])
+    bb = RefBlackBox("ha", ["x", "y"], ["c", "s"])
+    P.call_method("circuit.py", "Circuit.add_blackbox", par2, bb, "u0", {"x": "A", "y": "B", "c": "T1", "s": "T2"})
+    ob("add_blackbox fully connected", par2, "Circuit.add_blackbox")
+    P.call_method("circuit.py", "Circuit.fill_blackbox", par2, "u0", child)
+    ob("fill_blackbox", par2, "Circuit.fill_blackbox")
+    chk.floor("library outputs linted", n, 60)
